@@ -251,6 +251,35 @@ def plan(ck):
     # (Yeast, Mold, Mycoplasma, Invertebrate, Echinoderm, Euplotid, Ascidian, Blepharisma all have 62 sense codons)
     for code in rng.sample([2, 3, 5, 7, 8, 11, 13], 2):
         cases.append(special("MG94", code=code))
+    # EXTREME but admissible simplex points: one or two frequencies at 1e-7, 1e-9, 1e-12, in every position (float64);
+    # judged with the usual conditioning-scaled tolerance (on the unchanged code the worst observed deviation in this
+    # regime is 0.5 % of it)
+    def extreme(kind, tiny, positions, **kw):
+        c = special(kind, **kw)
+        n_ = c["n"]
+        rows = []
+        for _ in c["params"]["frequencies"]:
+            f = M.gen_freqs(rng, n_, False)
+            for p_ in positions:
+                f[p_ % n_] = tiny
+            tot = sum(f)
+            rows.append([x / tot for x in f])
+        c["params"]["frequencies"] = rows
+        return c
+
+    for tiny in (1e-7, 1e-9, 1e-12):
+        for pos in range(4):
+            cases.append(extreme("HKY", tiny, [pos]))
+            cases.append(extreme("GTR", tiny, [pos]))
+        for pos in range(5):
+            cases.append(extreme("GeneralSymmetric", tiny, [pos], n=5))
+        cases.append(extreme("GeneralSymmetric", tiny, [0, 2], n=3))
+        cases.append(extreme("HKY", tiny, [0, 3]))
+        cases.append(extreme("GTR", tiny, [rng.randrange(4)], batch="all"))
+        cases.append(extreme("GeneralNonSymmetric", tiny, [rng.randrange(4)], n=4))
+        if th or tiny == 1e-9:
+            cases.append(extreme("MG94", tiny, [0], code=rng.randrange(15)))
+            cases.append(extreme("MG94", tiny, [rng.randrange(60)], code=rng.randrange(15)))
     # TWO sample dimensions [S1,S2,d] with the frequencies shared / with fewer batch dimensions / full, every model
     for kind in ("HKY", "GTR", "GeneralSymmetric", "GeneralNonSymmetric") + (("MG94",) if th else ()):
         for fflag in (False, "inner", True):
@@ -435,7 +464,8 @@ def run(ck: Check):
                     a["status"] == b["status"] and (a["status"] != "ok" or (
                         all(np.array_equal(x, y) for x, y in zip(a["Q"], b["Q"]))
                         # p_t: torch's eigh/inverse/matmul kernels may differ by an ulp when a graph is recorded
-                        and np.abs(a["P"] - b["P"]).max() <= (1e-6 if M.low_precision(c) else 1e-14)))
+                        and np.abs(a["P"] - b["P"]).max() <= (1e-6 if M.low_precision(c) else 1e-13 * max(
+                            1.0, float(np.sqrt(max(f.max() / f.min() for f in a["freqs"]))) if all(f.min() > 0 for f in a["freqs"]) else 1.0))))
                     for a, b in zip(alt, want))
                 if not same:
                     ck.mismatch("evaluation differs under grad mode " + mode, {"case": c})
